@@ -8,3 +8,4 @@ python3 tools/translate.py
 (cd harness && cargo build --offline --target-dir target-default 2>&1 | tail -2)
 (cd harness && cargo build --offline --target-dir target-memfd --features memfd 2>&1 | tail -1)
 (cd harness && cargo build --offline --target-dir target-force-inprocess --features force-inprocess 2>&1 | tail -1)
+(cd harness && cargo build --offline --target-dir target-async --features async 2>&1 | tail -1)
